@@ -83,6 +83,8 @@ let parse_st line =
     let ssize = nexti c in let sok = (next c = "1") in
     let djs = List.map (fun part ->
       let c = { t = split part } in
+      let dd = nexti c in
+      if dd <> sdim then raise (Syntax (Printf.sprintf "a disjunct has space dimension %d inside a powerset of dimension %d" dd sdim));
       if next c <> "cons" then raise (Syntax "expected cons");
       let dcons = read_cons c sdim in
       if next c <> "gens" then raise (Syntax "expected gens");
@@ -326,11 +328,13 @@ let () =
   let raw_lines : (int, string) Hashtbl.t = Hashtbl.create 8 and last_line : (int, string) Hashtbl.t = Hashtbl.create 8 in
   let tainted = ref false in
   let parse_keep l = let st = parse_st l in Hashtbl.replace raw_lines st.sid l; st in
+  let bad_state : string option ref = ref None in
+  let parse_keep l = (try Some (parse_keep l) with Syntax m | Failure m -> bad_state := Some m; None) in
   let read_states () =
     let rec loop acc = match rdo1 () with
       | "endst" -> List.rev acc
       | l when String.length l > 13 && String.sub l 0 13 = "HARNESS-ERROR" -> Printf.printf "HARNESS %s\n" l; exit 3
-      | l -> loop (parse_keep l :: acc) in
+      | l -> (match parse_keep l with Some st -> loop (st :: acc) | None -> loop acc) in
     loop [] in
   (* compare every object with the model, then resynchronise.  An object whose printed state is
      textually the one already judged, and which the model did not touch in this step, is not judged again.
@@ -421,7 +425,11 @@ let () =
            let ret = ref None in
            (match split !l2 with "ret" :: v :: _ -> ret := Some v; l2 := "" | _ -> ());
            let sts = (if !l2 = "" then read_states () else if !l2 = "endst" then [] else
-                        (let first = parse_keep !l2 in first :: read_states ())) in
+                        (match parse_keep !l2 with Some first -> first :: read_states () | None -> read_states ())) in
+           (match !bad_state with
+            | Some m when not !dead -> report "state/ill-formed" line (Fail ("printed state is ill-formed: " ^ m)); dead := true
+            | _ -> ());
+           bad_state := None;
            if not !dead then begin
              let opname = (match toks with "op" :: _ :: o :: _ -> "op:" ^ o | "new" :: _ :: _ :: h :: _ -> "new:" ^ h | _ -> "copy") in
              bump opname;
@@ -475,6 +483,10 @@ let () =
            incr step; incr stats_steps;
            let ans = split (rdo1 ()) in
            let sts = read_states () in
+           (match !bad_state with
+            | Some m when not !dead -> report "state/ill-formed" line (Fail ("printed state is ill-formed: " ^ m)); dead := true
+            | _ -> ());
+           bad_state := None;
            if not !dead then begin
              let qn = "qry:" ^ (try List.nth rest 1 with _ -> "?") in
              bump qn;
